@@ -20,6 +20,7 @@ TABLE = {
     'C12': ('harness.c10', lambda m, tier, only: m.main('C12', tier, only)),
     'C19': ('harness.c19', lambda m, tier, only: m.main('C19', tier, only)),
     'C13': ('harness.c13', lambda m, tier, only: m.main('C13', tier, only)),
+    'C16': ('harness.c16', lambda m, tier, only: m.main('C16', tier, only)),
     'C07': ('harness.c07', lambda m, tier, only: m.main('C07', tier, only)),
 }
 
